@@ -274,6 +274,7 @@ func c06CheckOnce(c c06Case) ([]vlib.Violation, bool) {
 func c06Config() irgen.Config {
 	cfg := irgen.DefaultConfig()
 	cfg.MaxDepth = 5
+	cfg.IntersectionAnyBranch = true
 	return cfg
 }
 
@@ -281,7 +282,7 @@ func TestC06(t *testing.T) {
 	run := vlib.Begin(t, "C06")
 	defer run.Finish(t)
 	run.Describe(
-		"IRs of 1-3 packages x 1-7 objects, nesting <= 5 (unions inside arrays inside union branches, structs in map values of struct fields of union branches, T|null and enums at every position, intersections, constant references), then 0-3 'shape reuse' operations: a type found in a package (a union four times out of six, else an anonymous enum / struct / collection) or a freshly drawn union of 2-3 branches (scalars, a list, references to struct objects, sometimes null) is copied into another struct field (appended or replacing one, at any depth of a struct object; same package, one in seven from any package), as is or varied (null branch added / removed, branches rotated, wrapped in an array or a map), the field non-required three times out of four; so the same union shape (same generated name) recurs within one schema, in required and non-required positions, with and without null. The IR is run through the built-in chain of go/java/php/python/typescript (Pipeline.ContextForLanguage, builders off). Oracle 1, an independent reflective walker (hint contents ignored) over the result: go/java no union anywhere; go/java/php enums only as an object's top-level type; go/java/php/python structs only as an object's top-level type or directly under an allOf composition, every non-required field nullable, no two-branch T|null union; enum member names: go prefixed with UpperCamel(object), typescript/python never purely numeric, php non-empty and not starting with +/-; each violating position is attributed to the pass after which it last started to violate (every prefix of the chain is replayed from the input). Oracle 2 (history of a field, go/java/php/python): a table of all struct fields under exact keys (object, field names, branch indices) after every prefix of the chain; a field of the result that is non-required and not nullable although the SAME field was non-required and nullable before the pass that last broke it is reported as `optional-nullability-dropped` with the kinds before>after and the pass (a pass that replaces a type - union by reference to the generated object, union by scalar, enum by reference, reference by its target - must carry the nullable flag over, on every code path, also when the generated object exists already); this is kept apart from non-nullable fields of objects a pass created and never normalised. Excluded by construction (three reported defects, counted under excluded:*): a non-required field whose union resolves to scalars of one kind is made required; a union with null whose other branches FlattenDisjunctions merges into one loses its null branch; a struct reachable from a union of references without explicit discriminator keeps one constant string / constant reference field only. Non-trivial: nesting depth >= 3 with a union, enum or struct in a non-top-level position; distinct by case hash. Labels union_shape_recurs* say how often a union shape recurs within a package and whether an occurrence is a non-required field.",
+		"IRs of 1-3 packages x 1-7 objects, nesting <= 5 (unions inside arrays inside union branches, structs in map values of struct fields of union branches, T|null and enums at every position, intersections, constant references), then 0-3 'shape reuse' operations: a type found in a package (a union four times out of six, else an anonymous enum / struct / collection) or a freshly drawn union of 2-3 branches (scalars, a list, references to struct objects, sometimes null) is copied into another struct field (appended or replacing one, at any depth of a struct object; same package, one in seven from any package), as is or varied (null branch added / removed, branches rotated, wrapped in an array or a map), the field non-required three times out of four; so the same union shape (same generated name) recurs within one schema, in required and non-required positions, with and without null. The IR is run through the built-in chain of go/java/php/python/typescript (Pipeline.ContextForLanguage, builders off). Oracle 1, an independent reflective walker (hint contents ignored) over the result: go/java no union anywhere; go/java/php enums only as an object's top-level type; go/java/php/python structs only as an object's top-level type or directly under an allOf composition, every non-required field nullable, no two-branch T|null union; enum member names: go prefixed with UpperCamel(object), typescript/python never purely numeric, php non-empty and not starting with +/-; each violating position is attributed to the pass after which it last started to violate (every prefix of the chain is replayed from the input). Oracle 2 (history of a field, go/java/php/python): a table of all struct fields under exact keys (object, field names, branch indices) after every prefix of the chain; a field of the result that is non-required and not nullable although the SAME field was non-required and nullable before the pass that last broke it is reported as `optional-nullability-dropped` with the kinds before>after and the pass (a pass that replaces a type - union by reference to the generated object, union by scalar, enum by reference, reference by its target - must carry the nullable flag over, on every code path, also when the generated object exists already); this is kept apart from non-nullable fields of objects a pass created and never normalised. One intersection branch in four is neither a reference nor an inline struct (a union, T|null, a list, a map, an enum: OpenAPI allOf with a oneOf branch). The three regions this check first kept out by construction are judged now: two of the defects behind them are repaired in cog (a same-kind scalar union dropping its nullability; the discriminator chosen by map iteration), the third is listed (C06-flatten-leaves-t-or-null). Non-trivial: nesting depth >= 3 with a union, enum or struct in a non-top-level position; distinct by case hash. Labels union_shape_recurs* say how often a union shape recurs within a package and whether an occurrence is a non-required field.",
 		"a chain that returns an error is an acceptable outcome (counted as rejected)",
 		"a panic inside the chain is not a C06 matter (C04); such cases are skipped and counted",
 		"a chain that gives two different results on one input is C03's matter: when the pipeline's result and the replayed chain disagree the evaluation is repeated (3 times), then skipped and counted (skipped_unstable_chain); the one known source (two discriminator candidates) is excluded by construction",
